@@ -12,8 +12,10 @@ NATIVE_PY = "/venv/bin/python"
 class Unit:
     """one proof unit = one function (or lemma group) verified against its contract; build(root) -> Engine"""
 
-    def __init__(self, name, build, budget=1.0):
-        self.name, self.build, self.budget = name, build, budget
+    def __init__(self, name, build, budget=1.0, bounded=None):
+        # bounded: None for a proof unit; otherwise the stated bound of an INSTANCE check (e.g. "lists of <= 2 sources"): its obligations are
+        # discharged by the same back ends but reported under `bounded`, never under obligations / discharged
+        self.name, self.build, self.budget, self.bounded = name, build, budget, bounded
 
 
 def _run_unit(args):
@@ -36,6 +38,7 @@ def _run_unit(args):
         for r in res:
             r["id"] = f"{prop}/{unit.name}/{r['id']}"
             r["unit_idx"] = idx
+            r["bounded"] = unit.bounded
         return {"unit": unit.name, "ok": True, "results": res, "functions": eng.functions, "dropped": sorted(set(eng.dropped) | set(getattr(eng, "extraction_notes", []))),
                 "trusted": sorted(set(getattr(eng, "trusted", []))), "wall": time.time() - t0}
     except Exception as e:
@@ -209,31 +212,38 @@ def main(prop, meta):
         lines.append(f"CHECKER-ERROR vacuous path (canary proved): {c['id']}")
     if native_err:
         lines.append(f"CHECKER-ERROR native side failed: {native_err}")
-    n_obl = len(obligations)
-    n_proved = sum(r["status"] == "proved" for r in obligations)
-    if n_obl == 0 and not errors:
+    bounded_obl = [r for r in obligations if r.get("bounded")]
+    proof_obl = [r for r in obligations if not r.get("bounded")]
+    n_obl = len(proof_obl)
+    n_proved = sum(r["status"] == "proved" for r in proof_obl)
+    if len(obligations) == 0 and not errors:
         lines.append("CHECKER-ERROR zero obligations generated")
     if violations:
         code = 1
-    elif errors or vacuous or native_err or n_obl == 0:
+    elif errors or vacuous or native_err or len(obligations) == 0:
         code = 3
     elif undecided:
         code = 2
     else:
         code = 0
-        lines.append(f"HELD property={prop} obligations={n_obl} discharged={n_proved} native_evaluations={(native or {}).get('evaluations', 0)}")
+        lines.append(f"HELD property={prop} obligations={n_obl} discharged={n_proved} native_evaluations={(native or {}).get('evaluations', 0)}" + (f" bounded_instance_obligations={len(bounded_obl)}" if bounded_obl else ""))
 
     wall = time.time() - t0
     solver_ms = sum(r["ms"] for r in obligations) + sum(c["ms"] for c in canaries)
     by_solver = {}
-    for r in obligations:
+    for r in proof_obl:
         if r["status"] == "proved":
             by_solver[r["solver"]] = by_solver.get(r["solver"], 0) + 1
-    samples = [{"id": r["id"], "status": r["status"], "solver": r["solver"], "ms": r["ms"]} for r in obligations[:6]]
+    samples = [{"id": r["id"], "status": r["status"], "solver": r["solver"], "ms": r["ms"]} for r in proof_obl[:6]]
+    bounded_units = {}
+    for r in bounded_obl:
+        b_ = bounded_units.setdefault(r["id"].split("/")[1], {"bound": r["bounded"], "instance_obligations": 0, "instance_obligations_discharged": 0})
+        b_["instance_obligations"] += 1
+        b_["instance_obligations_discharged"] += r["status"] == "proved"
     if native and native.get("samples"):
         samples += native["samples"][:4]
     level = meta.get("level", "proof")
-    known_obl = sorted({r["id"] for kf, r in known_hits if "status" in r})
+    known_obl = sorted({r["id"] for kf, r in known_hits if "status" in r and not r.get("bounded")})
     known_refuted = len(known_obl)
     # obligations that fail because of a LISTED known finding are reported separately (with the KNOWN-FINDING line); the proof claim
     # of this run is about all the others, and says so
@@ -248,9 +258,9 @@ def main(prop, meta):
         "canaries": len(canaries), "canaries_proved_vacuous": len(vacuous),
         "functions_under_contract": functions,
         "extraction_drops": sorted(dropped) + ["docstrings/comments", "text of exception messages (class kept)", "type annotations"],
-        "per_obligation": [{k: r[k] for k in ("id", "status", "solver", "ms")} for r in obligations],
+        "per_obligation": [{k: r[k] for k in ("id", "status", "solver", "ms")} for r in proof_obl],
         "samples": samples,
-        "bounded": meta.get("bounded", []) + ([{"what": "native small-scope enumeration / history search on the real code with the executable contract (replay, covers, refutation mode); never counted as discharged", "evaluations": native.get("evaluations", 0), "scope": native.get("scope", "")}] if native else []),
+        "bounded": meta.get("bounded", []) + [{"what": "instance check of unit '" + u_ + "' by the VC generator and solvers (bounded stand-in: NOT counted in obligations / discharged)", **b_} for u_, b_ in sorted(bounded_units.items())] + ([{"what": "native small-scope enumeration / history search on the real code with the executable contract (replay, covers, refutation mode); never counted as discharged", "evaluations": native.get("evaluations", 0), "scope": native.get("scope", "")}] if native else []),
         "native": {k: native[k] for k in ("evaluations", "covers", "scope", "oracles") if k in native} if native else None,
         "unit_errors": [{"unit": e["unit"], "error": e["error"]} for e in errors],
         "undecided": [r["id"] for r in undecided],
